@@ -9,6 +9,7 @@ CONSTANTS
   CoordsX <- Coords
   CoordsY <- Zero
   Repaired = TRUE
+  Measure = TRUE
 SPECIFICATION Spec
-INVARIANTS ClipInScreen SetCellConforms WideCellConforms FillConforms ExtentConforms
+INVARIANTS ClipInScreen SetCellConforms WideCellConforms AutoCellConforms FillConforms ExtentConforms
 CHECK_DEADLOCK FALSE
